@@ -96,11 +96,11 @@ def putMgr (s : Sys) (n : String) (m : Upstream.Mgr) (touch : Bool) : Sys :=
     { net := if touch then s.net.setNode n m.gossip else s.net,
       side := s.side.insert n { sd with lbs := m.lbs, table := m.cluster } }
 
-/-- node `n`'s watcher is told `ev` -/
+/-- node `n`'s watcher is told `ev` (nothing to tell: nothing happens) -/
 def feed (side : AMap String Side) (n : String) (ev : List Event) : AMap String Side :=
-  match side.find n with
-  | some sd => side.insert n (sd.observe ev)
-  | none => side
+  match ev, side.find n with
+  | _ :: _, some sd => side.insert n (sd.observe ev)
+  | _, _ => side
 
 /-- the notifications at `n` of the reply half of `join n m` (reply delivered): `ApplyDelta` of
 `Delta(digest of n, full)` computed by `m` after it applied `n`'s `LocalDelta` and digest -/
